@@ -109,4 +109,14 @@ PROPS = {
             "as C10 for the connection driver",
         ],
     },
+    'C08': {
+        'streams': ['printer'],
+        'shrink': {},
+        'assumptions': [
+            "BufWriter / write_all deliver bytes in order; a writer accepts a prefix of each write (scripted in the harness, a parameter in the model)",
+            "a body reader is the list of pieces its reads deliver; the Date line is a parameter (the harness pins the clock with hook H4)",
+            "probe_body's exact read sizes (Vec growth) are not modelled: model and implementation are compared through the decoder, which is what the property observes",
+            "status codes 100..999, reasons / header names / values without CR LF, values without outer whitespace, at most one Transfer-Encoding field (chunked) and one Content-Length field",
+        ],
+    },
 }
